@@ -29,9 +29,10 @@ def demoCands (c : Cfg) : List (List Rel) :=
 /-- stem "ab", one certificate -/
 def demoCfg (detach : Bool) : Cfg := { hash := .sha256, detach := detach, stem := [0x61, 0x62], chain := [([0x61, 0x62], [1])], time := [] }
 
-/-- the Object a signing of `pkg` builds (the signer does not use `xopen`) -/
+/-- the Object a signing of `pkg` builds (the signer does not use `xopen`; where the repaired signer succeeds it builds the
+    same Object as the one before the repairs) -/
 def demoObj (c : Cfg) (pkg : Pkg) : Node :=
-  match Vsix.sign (demoEnv [] noNode) c pkg with
+  match Vsix.sign false (demoEnv [] noNode) c pkg with
   | .ok s => s.obj
   | _ => noNode
 
@@ -39,8 +40,8 @@ def demoE (c : Cfg) (pkg : Pkg) : Env := demoEnv (demoCands c) (demoObj c pkg)
 
 def noSigned : Vsix.Signed := ⟨[], [], [], noNode, {}⟩
 
-def demoSigned (c : Cfg) (pkg : Pkg) : Vsix.Signed :=
-  match Vsix.sign (demoE c pkg) c pkg with
+def demoSigned (fx : Bool) (c : Cfg) (pkg : Pkg) : Vsix.Signed :=
+  match Vsix.sign fx (demoE c pkg) c pkg with
   | .ok s => s
   | _ => noSigned
 
